@@ -254,6 +254,14 @@ End Decode.
 
 (* ================= 4. specification ================= *)
 
+(* positions 0 .. n-1 and the set bits of a mask among them, ascending *)
+Definition Nrange (n : nat) : list N := map N.of_nat (seq 0 n).
+Definition mask_bits (num : N) (n : nat) : list N := filter (N.testbit num) (Nrange n).
+(* channel with readout index i, total (Reset 0 is not a channel of the chip) *)
+Definition readout_chan_d (i : N) : chan := match readout_chan i with Some c => c | None => Reset 0 end.
+(* channel list of a mask: set bits ascending, bit i <-> readout index i + 1 *)
+Definition mask_chan_list (num : N) : list chan := map (fun i => readout_chan_d (i + 1)) (mask_bits num 79).
+
 (* 80-bit mask of a channel list: bit (readout index - 1) is set for every listed channel *)
 Definition chans_mask (cs : list chan) : N :=
   fold_right (fun c acc => N.setbit acc (chan_readout c - 1)) 0 cs.
